@@ -459,6 +459,32 @@ def jsonable(c):
     return json.loads(json.dumps(c, default=str))
 
 
+def pregen(ctx):
+    """tie (T): re-translate check_vector (utils/validation.py) and check_one_sequence / check_n_sequences (_base.py) of the tree under
+    test into coq/gen/Gen_validation.v (translator vlib/py2coq_val.py, vocabulary coq/base/ValPrelude.v); proofs/Gen_validation_eq.v then
+    proves them equal to model/Shapes.v.  Returns None or the error text; on rejection a stub that does not compile replaces the
+    file (never a stale model)."""
+    import os
+    from vlib import py2coq_val
+    path = os.path.join(core.COQ, "gen", "Gen_validation.v")
+    os.makedirs(os.path.dirname(path), exist_ok=True)
+    err = None
+    try:
+        text = py2coq_val.emit(core.REPO)
+    except py2coq_val.Reject as ex:
+        err = "translation rejected: %s" % ex
+    except Exception:
+        err = "translator exception: " + traceback.format_exc()[-1500:]
+    if err is not None:
+        text = "(* GENERATED: translation of the validation functions FAILED -- %s *)\nDefinition translation_failed : True := 0.\n" % (
+            err.replace("*)", "* )").replace("(*", "( *"))
+    old = open(path).read() if os.path.exists(path) else None
+    if old != text:               # keep the mtime (and the compiled cone) when nothing changed
+        with open(path, "w") as f:
+            f.write(text)
+    return None if err is None else "unit validation (check_vector, check_one_sequence, check_n_sequences): %s" % err
+
+
 def correspondence(ctx):
     rng = ctx.rng("corr")
     n = ctx.n(400, 4000)
@@ -1256,6 +1282,170 @@ def later_sequence_type_probe():
     return out
 
 
+def delay_after_stateless_probe():
+    """An initialised Delay (delay 1..3) that went through an operation asked NOT to be remembered -- run(X, stateful=False), call(x, stateful=False),
+    or, inside a Model, model.run(X, stateful=False, reset=True): on each of the following delay+1 steps call() on one timestep returns a
+    (1, output_dim) array and state() is (1, output_dim); a Concat fed by that Delay inside a model still runs."""
+    rpy()
+    from reservoirpy.nodes import Concat, Delay, Input
+    key = "state-not-2d:delay-after-stateless"
+    out = []
+    rs = np.random.RandomState(12)
+    T, N = 6, 3
+    X, X2 = rs.randint(-8, 9, (T, N)) / 4.0, rs.randint(-8, 9, (T, N)) / 4.0
+
+    def follow(tag, D, step, node):
+        """the next D+1 one-timestep operations: shapes of the returned array and of the node's state"""
+        for t in range(D + 1):
+            r = step(X[t:t + 1])
+            shr, shs = np.shape(r), np.shape(node.state())
+            if not isinstance(r, np.ndarray) or shr != (1, N) or shs != (1, N):
+                return "%s: step %d afterwards returns an array of shape %s and leaves a state of shape %s, expected (1, %d) for both" % (tag, t + 1, shr, shs, N)
+        return None
+
+    for D in (1, 2, 3):
+        def alone_run():
+            node = Delay(delay=D, name=uname("das"))
+            node.run(X)
+            r = node.run(X2, stateful=False)
+            if np.shape(r) != (T, N) or np.shape(node.state()) != (1, N):
+                return "Delay(delay=%d).run(X, stateful=False) returns shape %s, state shape %s" % (D, np.shape(r), np.shape(node.state()))
+            return follow("Delay(delay=%d) after run(X, stateful=False)" % D, D, node.call, node)
+
+        def alone_call():
+            node = Delay(delay=D, name=uname("das"))
+            node.run(X)
+            r = node.call(X2[:1], stateful=False)
+            if np.shape(r) != (1, N) or np.shape(node.state()) != (1, N):
+                return "Delay(delay=%d).call(x, stateful=False) returns shape %s, state shape %s" % (D, np.shape(r), np.shape(node.state()))
+            return follow("Delay(delay=%d) after call(x, stateful=False)" % D, D, node.call, node)
+
+        def in_model():
+            src, node = Input(name=uname("dasin")), Delay(delay=D, name=uname("das"))
+            model = src >> node
+            model.run(X)
+            r = model.run(X2, stateful=False, reset=True)
+            if np.shape(r) != (T, N) or np.shape(node.state()) != (1, N):
+                return "Input >> Delay(delay=%d): run(X, stateful=False, reset=True) returns shape %s, Delay state shape %s" % (D, np.shape(r), np.shape(node.state()))
+            return follow("Input >> Delay(delay=%d) after model.run(X, stateful=False, reset=True)" % D, D, model.call, node)
+
+        def with_concat():
+            src, node = Input(name=uname("dasin")), Delay(delay=D, name=uname("das"))
+            model = [src >> node, src] >> Concat(name=uname("dascc"))
+            model.run(X)
+            model.run(X2, stateful=False, reset=True)
+            try:
+                r = model.run(X[:D + 1])
+            except Exception as e:  # noqa: BLE001
+                return ("Input >> [Delay(delay=%d), Input] >> Concat cannot run any more after model.run(X, stateful=False, reset=True): %s: %s"
+                        % (D, type(e).__name__, str(e)[:100]))
+            if np.shape(r) != (D + 1, 2 * N) or np.shape(node.state()) != (1, N):
+                return ("Input >> [Delay(delay=%d), Input] >> Concat after model.run(X, stateful=False, reset=True): the next run on %d timesteps returns "
+                        "shape %s, Delay state shape %s" % (D, D + 1, np.shape(r), np.shape(node.state())))
+            return None
+        for fn in (alone_run, alone_call, in_model, with_concat):
+            try:
+                what = fn()
+            except Exception as e:  # noqa: BLE001
+                what = "%s (delay=%d) raised %s: %s" % (fn.__name__, D, type(e).__name__, str(e)[:100])
+            if what:
+                out.append((key, what))
+    return out
+
+
+def model_teacher_probe():
+    """Model.train on `res >> f1 & res >> f2` (two online readouts) with a target mapping that gives ONE readout a teacher node and the OTHER an array of
+    the wrong width (either order): refused, no readout keeps a registered teacher, and the next well-formed train with the same array targets for both
+    gives both readouts the same weights"""
+    rpy()
+    from reservoirpy.nodes import LMS, Input, Reservoir
+    out = []
+    rs = np.random.RandomState(11)
+    X, Y = rs.randint(-8, 9, (12, 3)) / 8.0, np.ones((12, 1))
+    for swap in (False, True):
+        try:
+            r = Reservoir(4, seed=1, rc_connectivity=1.0, input_connectivity=1.0, name=uname("mtr"))
+            f1, f2 = LMS(output_dim=1, alpha=0.125, name=uname("mtf")), LMS(output_dim=1, alpha=0.125, name=uname("mtg"))
+            teacher = Input(input_dim=1, name=uname("mtt")).initialize(np.zeros((1, 1)))
+            m = r >> f1 & r >> f2
+            m.initialize(X[:1], {f1.name: Y[:1], f2.name: Y[:1]})
+            first, second = [n.name for n in m.trainable_nodes][::-1 if swap else 1]
+            try:
+                m.train(X, {first: teacher, second: rs.randint(-8, 9, (12, 3)) / 8.0})      # width 3 for an output_dim of 1
+                raised = False
+            except Exception:  # noqa: BLE001
+                raised = True
+            left = [n.name for n in (f1, f2) if getattr(n, "_teacher", None) is not None]
+            if not raised:
+                out.append(("accepted:wrong-feature-count:model-train-mapping", "Model.train with a 3-wide target array for a readout of output_dim 1 is accepted"))
+                continue
+            if left:
+                out.append(("late-rejection:teacher-stays-registered:model", "Model.train({A: <teacher node>, B: <array of the wrong width>}) is refused but the teacher stays "
+                            "registered on %s: the next train ignores the targets it is given for that readout" % left))
+                continue
+            m.train(X, {f1.name: Y, f2.name: Y})
+            if not np.allclose(f1.Wout, f2.Wout, atol=1e-12):
+                out.append(("late-rejection:teacher-stays-registered:model", "after a refused Model.train mixing a teacher node and a bad array, training both readouts on the "
+                            "same targets gives different weights (|Wout| %.3g vs %.3g)" % (np.abs(f1.Wout).sum(), np.abs(f2.Wout).sum())))
+        except Exception as e:  # noqa: BLE001
+            out.append(("model-teacher:exception", "model teacher probe raised %s: %s" % (type(e).__name__, str(e)[:100])))
+    return out
+
+
+def declared_dim_multiseq_probe():
+    """never-run deep model r1 >> o1 >> r2 >> o2(output_dim=2) and never-run ESN(output_dim=2), a dataset of TWO sequences whose targets for the declared
+    readout are 3 wide: refused, every node left exactly as built (not initialised, no dimension inferred), and a following well-formed dataset of other
+    input width is the one that fixes the dimensions"""
+    rpy()
+    from reservoirpy.nodes import ESN, Reservoir, Ridge
+    out = []
+    rs = np.random.RandomState(12)
+    T = 8
+
+    def snap(nodes):
+        return [(n.is_initialized, n.input_dim, n.output_dim, sorted(k for k, v in n.params.items() if v is not None and not callable(v))) for n in nodes]
+    try:
+        r1, o1 = Reservoir(4, seed=1, name=uname("ddr")), Ridge(ridge=0.125, name=uname("ddo"))
+        r2, o2 = Reservoir(3, seed=2, name=uname("dds")), Ridge(ridge=0.125, output_dim=2, name=uname("ddp"))
+        deep = r1 >> o1 >> r2 >> o2
+        nodes = [r1, o1, r2, o2]
+        X3 = [rs.randint(-8, 9, (T, 3)) / 4.0 for _ in range(2)]
+        badY = {o1.name: [rs.randint(-8, 9, (T, 1)) / 4.0 for _ in range(2)], o2.name: [rs.randint(-8, 9, (T, 3)) / 4.0 for _ in range(2)]}
+        before = snap(nodes)
+        try:
+            deep.fit(X3, badY); raised = False
+        except Exception:  # noqa: BLE001
+            raised = True
+        if not raised:
+            out.append(("accepted:wrong-feature-count:declared-dim-multiseq", "deep model fit with 3-wide targets for a readout declared with output_dim=2 is accepted"))
+        elif snap(nodes) != before or deep.is_initialized:
+            out.append(("late-rejection:wrong-feature-count:declared-dim-multiseq", "never-run deep model, two sequences, targets 3 wide for a readout declared with output_dim=2: "
+                        "refused, but nodes were initialised first (%s -> %s)" % (before, snap(nodes))))
+        else:
+            X4 = [rs.randint(-8, 9, (T, 4)) / 4.0 for _ in range(2)]
+            goodY = {o1.name: [rs.randint(-8, 9, (T, 2)) / 4.0 for _ in range(2)], o2.name: [rs.randint(-8, 9, (T, 2)) / 4.0 for _ in range(2)]}
+            deep.fit(X4, goodY)
+            r = deep.run(X4[0])
+            if np.shape(r) != (T, 2) or (r1.input_dim, o1.output_dim) != (4, 2):
+                out.append(("late-rejection:wrong-feature-count:declared-dim-multiseq", "after the refused fit, a well-formed fit of other widths gives run shape %s, "
+                            "r1.input_dim %r, o1.output_dim %r" % (np.shape(r), r1.input_dim, o1.output_dim)))
+        esn = ESN(units=4, ridge=0.125, output_dim=2, workers=2, backend="threading", seed=3, name=uname("dde"))
+        en = [esn.reservoir, esn.readout]
+        before = snap(en)
+        try:
+            esn.fit(X3, [rs.randint(-8, 9, (T, 3)) / 4.0 for _ in range(2)]); raised = False
+        except Exception:  # noqa: BLE001
+            raised = True
+        if not raised:
+            out.append(("accepted:wrong-feature-count:declared-dim-multiseq", "ESN(output_dim=2).fit with 3-wide targets is accepted"))
+        elif snap(en) != before:
+            out.append(("late-rejection:wrong-feature-count:declared-dim-multiseq", "never-run ESN(output_dim=2, workers=2), two sequences with 3-wide targets: refused, but its "
+                        "nodes were initialised first (%s -> %s)" % (before, snap(en))))
+    except Exception as e:  # noqa: BLE001
+        out.append(("declared-dim-multiseq:exception", "probe raised %s: %s" % (type(e).__name__, str(e)[:120])))
+    return out
+
+
 def oracle(ctx, scale=1):
     rng = ctx.rng("oracle")
     cases = directed_cases() + [gen_case(rng, i) for i in range(ctx.n(300, 3000) * scale)]
@@ -1293,15 +1483,29 @@ def oracle(ctx, scale=1):
         if key not in seen:
             seen.add(key)
             out.append({"key": key, "what": what, "scenario": {"later_sequence_type_probe": True}, "expected": "an exception, nothing accumulated", "observed": what})
+    for key, what in model_teacher_probe():
+        if key not in seen:
+            seen.add(key)
+            out.append({"key": key, "what": what, "scenario": {"model_teacher_probe": True}, "expected": "an exception, no teacher left registered", "observed": what})
+    for key, what in declared_dim_multiseq_probe():
+        if key not in seen:
+            seen.add(key)
+            out.append({"key": key, "what": what, "scenario": {"declared_dim_multiseq_probe": True}, "expected": "an exception, every node as built", "observed": what})
     for key, what in ragged_model_probe():
         if key not in seen:
             seen.add(key)
             out.append({"key": key, "what": what, "scenario": {"ragged_model_probe": True}, "expected": "an exception, every node untouched", "observed": what})
-    return {"evaluations": len(cases) + len(links) + len(models) + 7, "violations": out,
+    for key, what in delay_after_stateless_probe():
+        if key not in seen:
+            seen.add(key)
+            out.append({"key": key, "what": what, "scenario": {"delay_after_stateless_probe": True},
+                        "expected": "call on one timestep returns (1, output_dim) and state() is (1, output_dim)", "observed": what})
+    return {"evaluations": len(cases) + len(links) + len(models) + 7 + 12, "violations": out,
             "rule": "on the real nodes, per operation: (i) dims never change once known; (ii) unsupported operations, non-array / non-numeric data, "
                     "lists where arrays are required and data whose feature size differs from the node's dims raise AND leave dims, state bytes and every "
                     "param bit-identical; (iii) accepted well-formed input of T steps returns (T, output_dim); (iv) state() is (1, output_dim) after any "
-                    "accepted operation; plus Delay / single-target ScikitLearnNode feeding a Concat inside a Model; "
+                    "accepted operation; plus Delay / single-target ScikitLearnNode feeding a Concat inside a Model, and a Delay (alone, in a Model, feeding a Concat) "
+                    "on the delay+1 steps that follow a run / call with stateful=False; "
                     "(v) links (>>, >>=, link) whose operands are nodes, never-run Models or lists: refused iff an initialised sender and an "
                     "initialised receiver disagree, and no dimension changes; "
                     "(vi) Model.fit on chains without offline learner / Model.train with an unfitted offline learner: exception (TypeError for fit), "
@@ -1328,8 +1532,17 @@ def replay(payload):
     if sc.get("later_sequence_type_probe"):
         v = [k for k, _ in later_sequence_type_probe() if k == payload.get("key")]
         return {"violates": bool(v), "detail": v}
+    if sc.get("model_teacher_probe"):
+        v = [k for k, _ in model_teacher_probe() if k == payload.get("key")]
+        return {"violates": bool(v), "detail": v}
+    if sc.get("declared_dim_multiseq_probe"):
+        v = [k for k, _ in declared_dim_multiseq_probe() if k == payload.get("key")]
+        return {"violates": bool(v), "detail": v}
     if sc.get("ragged_model_probe"):
         v = ragged_model_probe()
+        return {"violates": bool(v), "detail": v}
+    if sc.get("delay_after_stateless_probe"):
+        v = [(k, w) for k, w in delay_after_stateless_probe() if k == payload.get("key")]
         return {"violates": bool(v), "detail": v}
     vs = [v for v in _judge(sc) if payload.get("key") in (None, v["key"])]
     return {"violates": bool(vs), "detail": vs[:1]}
